@@ -279,3 +279,5 @@ UnpackInfoRetrieve = _retrieve_contract("UnpackInfo", "_read", props=("C06",))
 SubstreamsInfoRetrieve = _retrieve_contract("SubstreamsInfo", "_read", extra=("numfolders", "folders"), props=("C06",))
 FilesInfoRetrieve = _retrieve_contract("FilesInfo", "_read", props=("C06",))
 FolderRetrieve = _retrieve_contract("Folder", "_read", props=("C06",))
+HeaderRetrieve = _retrieve_contract("Header", "_read", extra=("buffer", "start_pos", "password"), props=("C06", "C04"))
+SignatureHeaderRetrieve = _retrieve_contract("SignatureHeader", "_read", props=("C06", "C04"))
